@@ -76,6 +76,9 @@ def decodeCall (c : Bytes) : Option Call :=
       if (utf8 payload).2 != .complete then none
       else some (match fits .arr with | some v => .push v payload | none => .nop)
     | 4 => some .nop      -- an observation (print + getters) in the middle of the history
+    | 5 => some .nop      -- replaced by a clone of itself
+    | 6 => some .nop      -- moved out with mem::take and moved back in
+    | 7 => some .nop      -- constructor choice (Summary::default instead of Summary::new)
     | _ => none
   | _ => none
 
